@@ -68,6 +68,9 @@ func (c *ctx) genJoinCase(i int) *joinCase {
 	if c.rnd.Intn(6) == 0 {
 		jc.devNonce = c.pick(0, 1, 65534, 65535)
 	}
+	if c.rnd.Intn(12) == 0 { // an RxDelay the 4-bit field cannot carry: the request cannot be answered with Success
+		jc.rxDelay = c.pick(16, 255, 256, 257, 271, 65539, -1, -255)
+	}
 	copy(jc.devEUI[:], c.bytesN(8))
 	jc.devEUI[0] = byte(i) // distinct per case within a batch
 	jc.devEUI[1] = byte(i >> 8)
